@@ -16,6 +16,7 @@ EXPLANATION = (
     "contextvars guarantees and are trusted, not analysed."
     "  Generator-based coroutines (eliot.twisted.inline_callbacks) are resumed -- by send, throw, close or a bound method handed elsewhere -- only inside <own context>.run(...) (C15.ctx, C15.inside)."
     '  The dask wrapper rule (one freshly serialized task id per wrapped task, never cached per key) is part of this property.'
+    '  twisted DeferredContext.addCallbacks must hand the Deferred its run-in-the-action wrappers on every path.'
 )
 RULE = ("obligation = the variable's definition, each use of it, and each store into global state examined by "
         "type; non-trivial = a definition/use/store site was resolved")
